@@ -1441,7 +1441,7 @@ Ltac op_nf :=
     GenOperators.body_and_, GenOperators.body_xor, GenOperators.body_or_, GenOperators.body_or2,
     GenOperators.body_immediate, GenOperators.body_deferred, GenOperators.body_register, GenOperators.body_call,
     GenOperators.catch_zde, GenOperators.py_floordiv, GenOperators.py_mod, GenOperators.py_lshift, GenOperators.py_rshift,
-    GenOperators.py_pow, GenOperators.py_assert, bind;
+    GenOperators.py_pow, GenOperators.py_assert, GenOperators.fn_times_power_of_two, GenOperators.reported_then, bind;
   repeat match goal with |- context [if ?c then _ else _] => destruct c end;
   simpl; discriminate.
 
